@@ -257,6 +257,7 @@ def run(ctx):
         hf = [h for h in hot if h in families.RED] or [h.strip("_") for h in hot if h.strip("_") in families.RED]
         if hf:
             cases += families.reduction_cases(rnd, 300, prefix="RH", funcs=hf)
+    cases += families.call_update_call(rnd, cases, 60 if ctx.tier == "quick" else 500)
     for c in cases:
         c["lazy_subsets"] = c["lazy_subsets"][:1] if rnd.random() < 0.4 else []
     family.evaluate(ctx, cases, want=("oracle", "traced", "static"))
